@@ -30,7 +30,7 @@ func init() {
 		Patterns: []string{"./d2graph", "./d2compiler", "./d2ast", "./d2format", "./d2exporter", "./d2lib", "./d2parser", "./d2ir"},
 		Explanation: "Decides: (1) who-may-write: on the compile path (d2graph, d2compiler, d2exporter, d2lib) Object.ID is written only by newObject and by the root literal of NewGraph; (2) the value newObject stores is d2format.Format of a one-element key path built with RawString(name, inKey = true) — the generator whose agreement with the parser C05 decides — and IDVal is that ID parsed back; " +
 			"(3) AbsID, AbsIDArray and Edge.AbsID join IDs with \".\" only and Edge.AbsID uses the `(src arrow dst)[index]` shape; (4) the generator clauses of C05 for key context (delimiter coverage, whole-rune whitespace test, keyword case) hold.",
-		NotCovered: "uniqueness of absolute IDs for arbitrary names; an object declared as the quoted lower-case keyword (\"label\") still gets the ID label, which reads as the keyword (recorded as a known finding); that each connection ID identifies exactly one connection (index arithmetic, C11)",
+		NotCovered: "uniqueness of absolute IDs for arbitrary names; an object declared as the quoted lower-case keyword (\"label\") still gets the ID label, which reads as the keyword (a limitation of the ID scheme, not decided here); that each connection ID identifies exactly one connection (index arithmetic, C11)",
 		Technique:  "static analysis: who-may-write on the typed AST, value-shape check of the ID expression, constant inventory of separators, reuse of the C05 generator clauses",
 		Run:        runC06,
 	})
